@@ -6,8 +6,8 @@ import Pog.Model.Names
   * enum member names          visit/model/enum_generator.py:185-193        (`base_1`, `base_2`, …)
   * class names / module stems emitters/models_emitter.py:349-388           (`Base2`/`Base_`→`Base2`, `stem_2`)
   * inline item / enum names   core/loader/schemas/extractor.py:127-131,288-292 (`Base1`, `Base2`, …)
-  * operation ids              emitters/endpoints_emitter.py:111-130        (NOT a loop: counter per
-                               sanitised name, the suffixed id is neither re-checked nor recorded)
+  * operation ids              emitters/endpoints_emitter.py:111-136        (`id_2`, `id_3`, …: counter per sanitised
+                               name; the suffix search skips method names already taken and records the one it hands out)
 
   A python `while cand in seen: cand = mk(k); k += 1` is a fuelled search; `Pog.Props` proves that
   fuel `|seen| + 1` always suffices (pigeonhole), i.e. that the python loop terminates.
@@ -70,26 +70,68 @@ def moduleStems (u : UInfo) (schemaNames : List Str) : Option (List Str) :=
 def inlineName (taken : List Str) (base : Str) : Option Str :=
   freshName (sufPlain base) 1 taken base
 
-/-! ### The operation-id "de-duplication" exactly as written (endpoints_emitter.py:111-130) -/
+/-! ### The operation-id de-duplication as written (endpoints_emitter.py:111-136)
+
+    ```
+    seen_methods: dict[str, int] = {}
+    for op in operations:
+        method_name = sanitize_method_name(op.operation_id)
+        if method_name in seen_methods:
+            while True:
+                seen_methods[method_name] += 1
+                new_op_id = f"{op.operation_id}_{seen_methods[method_name]}"
+                new_method_name = sanitize_method_name(new_op_id)
+                if new_method_name not in seen_methods: break
+            seen_methods[new_method_name] = 1
+            op.operation_id = new_op_id
+        else:
+            seen_methods[method_name] = 1
+    ```
+    The keys of `seen_methods` do not change while the `while` loop runs (only the counter of `method_name` does), so the
+    loop is `findFresh` over the keys, starting at `counter + 1`; the counter ends at the suffix found. -/
 
 def countOf (seen : List (Str × Nat)) (k : Str) : Option Nat :=
   match seen with
   | [] => none
   | (k', n) :: rest => if k' == k then some n else countOf rest k
 
-def bump (seen : List (Str × Nat)) (k : Str) : List (Str × Nat) :=
+/-- `seen[k] = v` for a key that is present (the position is kept). -/
+def setCount (seen : List (Str × Nat)) (k : Str) (v : Nat) : List (Str × Nat) :=
   match seen with
   | [] => []
-  | (k', n) :: rest => if k' == k then (k', n + 1) :: rest else (k', n) :: bump rest k
+  | (k', n) :: rest => if k' == k then (k', v) :: rest else (k', n) :: setCount rest k v
 
-/-- Returns the operation ids after the pass. -/
-def dedupOpIds : List (Str × Nat) → List Str → List Str
-  | _, [] => []
+/-- `f"{op.operation_id}_{k}"` -/
+def sufId (id : Str) (k : Nat) : Str := id ++ '_' :: natStr k
+
+/-- The method name of the `k`-th candidate for `id`. -/
+def sufMethod (id : Str) (k : Nat) : Str := sanMethod (sufId id k)
+
+/-- The keys of `seen_methods`, in insertion order. -/
+def seenKeys (seen : List (Str × Nat)) : List Str := seen.map (·.1)
+
+/-- The operation ids after the pass.  `none` would mean that one of the `while` loops does not end within `|seen_methods| + 1`
+    iterations; `Pog.dedupOpIds?_isSome` proves that this never happens (the python loop terminates on every input). -/
+def dedupOpIds? : List (Str × Nat) → List Str → Option (List Str)
+  | _, [] => some []
   | seen, id :: rest =>
     let m := sanMethod id
     match countOf seen m with
-    | some n => (id ++ '_' :: natStr (n + 1)) :: dedupOpIds (bump seen m) rest
-    | none => id :: dedupOpIds (seen ++ [(m, 1)]) rest
+    | some n =>
+      match findFresh (sufMethod id) (seenKeys seen) (n + 1) (seen.length + 1) with
+      | none => none
+      | some k =>
+        match dedupOpIds? (setCount seen m k ++ [(sufMethod id k, 1)]) rest with
+        | none => none
+        | some out => some (sufId id k :: out)
+    | none =>
+      match dedupOpIds? (seen ++ [(m, 1)]) rest with
+      | none => none
+      | some out => some (id :: out)
+
+/-- The operation ids after the pass, as a total function (`dedupOpIds?` is always `some`, `Pog.dedupOpIds?_eq_some`;
+    the default is never taken). -/
+def dedupOpIds (seen : List (Str × Nat)) (ids : List Str) : List Str := (dedupOpIds? seen ids).getD ids
 
 /-- Method names the endpoint visitor will emit: sanitised de-duplicated ids. -/
 def methodNames (ids : List Str) : List Str := (dedupOpIds [] ids).map sanMethod
